@@ -138,11 +138,11 @@ inductive FileTarget
   | badPath   -- the path bytes do not decode
   | root      -- empty name and empty path: nothing is named
   | missing
-  | file
-  | folder
+  | file      -- a regular file, or an alias (symlink) whose target is a file: an alias is governed like its target
+  | folder    -- a folder, or an alias whose target is a folder
 deriving DecidableEq, Repr
 
-/-- what a news path addresses -/
+/-- what a news path addresses (at any depth) -/
 inductive NewsTarget
   | badPath   -- undecodable or empty path
   | category
